@@ -68,12 +68,100 @@ class LockProxy:
         return getattr(self.real, k)
 
 
-def _proxy_factory(orig, reentrant):
+class OwnedLock:
+    """a threading lock created by any other module of the package: forwards everything, and remembers which
+    thread of which process holds it.  A process forked while another thread holds such a lock inherits it
+    locked without the thread that would release it; an acquire in that process can never succeed.  This is the
+    fork-safety monitor of C16 ("no call blocks forever"): the acquire that cannot succeed is written to
+    FORKSAFETY["dir"] as a witness before it blocks as the real code would."""
+
+    def __init__(self, real, reentrant, created_in, lineno):
+        self.real = real
+        self.reentrant = reentrant
+        self.created_in = created_in
+        self.lineno = lineno
+        self.owner = None  # (pid, thread ident, depth)
+        OWNED_LOCKS.append(self)
+
+    def acquire(self, blocking=True, timeout=-1):
+        own = self.owner
+        me = (os.getpid(), _threading.get_ident())
+        if own is not None and own[0] != me[0] and blocking and (not self.reentrant or True):
+            # held since before the fork by a thread that does not exist in this process
+            if not self.real.acquire(False):
+                _forksafety_witness(self, own)
+            else:
+                self.real.release()
+        ok = self.real.acquire(blocking, timeout)
+        if ok:
+            FORKSAFETY["acquisitions"] += 1
+            depth = own[2] + 1 if (own is not None and own[:2] == me) else 1
+            self.owner = (me[0], me[1], depth)
+            hold = FORKSAFETY["hold"]
+            if hold is not None and depth == 1:
+                hold(self)
+        return ok
+
+    def release(self):
+        own = self.owner
+        if own is not None and own[2] > 1:
+            self.owner = (own[0], own[1], own[2] - 1)
+        else:
+            self.owner = None
+        return self.real.release()
+
+    def _at_fork_reinit(self):
+        self.owner = None
+        return self.real._at_fork_reinit()
+
+    def __enter__(self):
+        self.acquire()
+        return self
+
+    def __exit__(self, *a):
+        self.release()
+        return False
+
+    def __getattr__(self, k):
+        return getattr(self.real, k)
+
+
+OWNED_LOCKS = []
+FORKSAFETY = {"dir": None, "hold": None, "acquisitions": 0, "forks": 0, "forks_with_lock_held_elsewhere": 0, "on_fork": None}
+
+
+def _forksafety_witness(lock, own):
+    d = FORKSAFETY["dir"]
+    if d:
+        import json as _json
+
+        with open(os.path.join(d, "orphan_%d.json" % os.getpid()), "w") as fh:
+            _json.dump({"lock_created_in": lock.created_in, "line": lock.lineno, "reentrant": lock.reentrant, "held_by_pid": own[0], "held_by_thread": own[1],
+                        "blocked_pid": os.getpid(), "parent_pid": os.getppid()}, fh)
+
+
+def _before_fork():
+    FORKSAFETY["forks"] += 1
+    me = _threading.get_ident()
+    if any(l.owner is not None and l.owner[0] == os.getpid() and l.owner[1] != me for l in OWNED_LOCKS):
+        FORKSAFETY["forks_with_lock_held_elsewhere"] += 1
+    f = FORKSAFETY["on_fork"]
+    if f is not None:
+        f()
+
+
+os.register_at_fork(before=_before_fork)
+
+
+def _proxy_factory(orig, reentrant, threading_lock=False):
     def factory(*a, **k):
         real = orig(*a, **k)
-        mod = sys._getframe(1).f_globals.get("__name__", "")
+        fr = sys._getframe(1)
+        mod = fr.f_globals.get("__name__", "")
         if mod in _LOCK_MODULES:
             return LockProxy(real, lambda: orig(*a, **k), reentrant, mod)
+        if threading_lock and (mod == "panoptica" or mod.startswith("panoptica.")):
+            return OwnedLock(real, reentrant, mod, fr.f_lineno)
         return real
 
     return factory
@@ -81,7 +169,7 @@ def _proxy_factory(orig, reentrant):
 
 _ORIG_LOCKS = {"mp.Lock": _mp.Lock, "mp.RLock": _mp.RLock, "th.Lock": _threading.Lock, "th.RLock": _threading.RLock}
 _mp.Lock, _mp.RLock = _proxy_factory(_mp.Lock, False), _proxy_factory(_mp.RLock, True)
-_threading.Lock, _threading.RLock = _proxy_factory(_threading.Lock, False), _proxy_factory(_threading.RLock, True)
+_threading.Lock, _threading.RLock = _proxy_factory(_threading.Lock, False, True), _proxy_factory(_threading.RLock, True, True)
 
 with contextlib.redirect_stdout(io.StringIO()):
     import panoptica  # noqa: E402
